@@ -347,6 +347,21 @@ m("c18-random-start-offset", "C18", H3INDEX,
     }""",
   "cellToChildren: output order depends on the process-wide rand() stream", "I6-ambient-state")
 
+m("c18-gcc-only-static", "C18", "src/h3lib/lib/latLng.c",
+  """double H3_EXPORT(degsToRads)(double degrees) { return degrees * M_PI_180; }""",
+  """double H3_EXPORT(degsToRads)(double degrees) {
+#if defined(__GNUC__) && !defined(__clang__)
+    static double lastIn, lastOut;
+    if (degrees != 0 && lastIn == degrees) return lastOut;
+    lastOut = degrees * M_PI_180;
+    lastIn = degrees;
+    return lastOut;
+#else
+    return degrees * M_PI_180;
+#endif
+}""",
+  "degsToRads: one-entry cache that exists only when compiled with gcc (the instrumented build uses clang)", "I1-static-write")
+
 # ------------------------------------------------------------------ C16 ----
 m("c16-skip-last-polygon", "C16", LINKED,
   """        if (skip) {
